@@ -207,3 +207,28 @@ Proof.
   eapply hoare_bind; [apply (hoare_iter2 S I Q d body Hb s Hi)|].
   intros [s'|x] Hr; [apply hoare_throw; exact Hf | apply hoare_ret; exact Hr].
 Qed.
+
+Lemma hoare_bits_lsbf (S : err -> Prop) n :
+  S EUEOF -> hoare S (fun v => v < 2 ^ N.of_nat n) (bits_lsbf n).
+Proof.
+  intros Hu. induction n as [|n IH]; cbn [bits_lsbf].
+  - apply hoare_ret. cbn. lia.
+  - intros s Hw. cbn [run]. destruct (a_in s) as [|b r]; [exact Hu|].
+    rewrite run_bind.
+    assert (Hw' : wf_ast (mkAst r (a_pos s + 1) (a_out s) (a_len s))) by exact Hw.
+    specialize (IH _ Hw').
+    destruct (run (bits_lsbf n) _) as [v s'|e s']; [|exact IH].
+    cbn [run]. rewrite Nat2N.inj_succ, N.pow_succ_r'. destruct b; cbn [N.b2n]; lia.
+Qed.
+
+(* elimination forms, then make the predicates opaque for unification: an
+   [apply only_yield] must not succeed on arbitrary goals by unfolding. *)
+Lemma only_elim {A} (S : err -> Prop) (p : prog A) s :
+  only S p -> wf_ast s -> match run p s with Fail e _ => S e | Done _ _ => True end.
+Proof. intros H Hw. exact (H s Hw). Qed.
+
+Lemma hoare_elim {A} (S : err -> Prop) (Q : A -> Prop) (p : prog A) s :
+  hoare S Q p -> wf_ast s -> match run p s with Fail e _ => S e | Done a _ => Q a end.
+Proof. intros H Hw. exact (H s Hw). Qed.
+
+Global Opaque only hoare.
